@@ -85,7 +85,7 @@ MechanismIsLaw == JustLoaded => /\ MechLoaded(call) = LoadedSeq(call)
                                 /\ MechRolls(call) = [p \in 1..Len(KeptSeq(call)) |-> RollOut(call, KeptSeq(call)[p])]
 \* the stitched curve is the function  date -> contract  (front contract = first one not rolled off)
 FrontIsStitch == JustLoaded =>
-    LET N == New(call)  con == Contrib(call)  ubs == UBs(call) IN
+    LET N == New(call)  con == Contrib(call)  ubs == RawUBs(call) IN
     /\ \A r \in 1..NRows(N), j \in 1..NCols(N) : N.cols[j][r] = CellAtU(call, con, ubs, N.rows[r], j)
     /\ RangeOf(N.rows) = {t \in 1..Horizon : \E j \in 1..NEff(call) : CellAtU(call, con, ubs, t, j) # NaN}
     /\ \A r \in 1..NRows(N) : FrontPosU(ubs, N.rows[r]) # 0
